@@ -11,8 +11,14 @@ import threading
 
 
 class Scheduler:
-    def __init__(self, schedule, marker="/statham/"):
+    def __init__(self, schedule, marker="/statham/", focus=()):
         self.schedule = [(max(0, int(g)), max(1, int(p))) for g, p in schedule]
+        # focus entries (module suffix, n, pick): additionally switch at the n-th line event executed
+        # inside that module - reaches short critical sections that a uniform gap rarely hits
+        self.focus = {}
+        for module, nth, pick in focus:
+            self.focus.setdefault(module, {})[int(nth)] = max(1, int(pick))
+        self.module_counts = {}
         self.marker = marker
         self.cv = threading.Condition()
         self.current = None
@@ -24,16 +30,25 @@ class Scheduler:
         self.errors = []
 
     # -- called by the running thread at every traced line --------------
-    def _point(self, tid):
+    def _point(self, tid, frame=None):
         self.points += 1
-        if self.countdown is None:
-            return
-        if self.countdown > 0:
-            self.countdown -= 1
-            return
-        pick = self.schedule[self.idx][1]
-        self.idx += 1
-        self.countdown = self.schedule[self.idx][0] if self.idx < len(self.schedule) else None
+        pick = None
+        if self.focus and frame is not None:
+            module = frame.f_code.co_filename.split(self.marker)[-1]
+            wanted = self.focus.get(module)
+            if wanted is not None:
+                count = self.module_counts.get(module, 0)
+                self.module_counts[module] = count + 1
+                pick = wanted.get(count)
+        if pick is None:
+            if self.countdown is None:
+                return
+            if self.countdown > 0:
+                self.countdown -= 1
+                return
+            pick = self.schedule[self.idx][1]
+            self.idx += 1
+            self.countdown = self.schedule[self.idx][0] if self.idx < len(self.schedule) else None
         with self.cv:
             if len(self.alive) < 2:
                 return
@@ -52,7 +67,7 @@ class Scheduler:
 
         def local(frame, event, arg):
             if event == "line":
-                self._point(tid)
+                self._point(tid, frame)
             return local
 
         def global_(frame, event, arg):
